@@ -100,6 +100,7 @@ func (e *RouterEnv) QueryKA(l string, wire []byte, client string, timeout, grace
 	if i := strings.IndexByte(l0, '@'); i >= 0 {
 		urlPath, l0 = l0[i+1:], l0[:i]
 	}
+	urlPath, qpre, qsuf := SplitQueryDecor(urlPath)
 	base := strings.TrimSuffix(strings.TrimSuffix(l0, "-get"), "-post")
 	port := e.Ports[base]
 	s := e.ka()
@@ -189,7 +190,7 @@ func (e *RouterEnv) QueryKA(l string, wire []byte, client string, timeout, grace
 		u := fmt.Sprintf("%s://127.0.0.1:%d%s", scheme, port, urlPath)
 		var req *http.Request
 		if strings.HasSuffix(l0, "-get") {
-			req, _ = http.NewRequest("GET", u+"?dns="+B64(wire), nil)
+			req, _ = http.NewRequest("GET", u+"?"+qpre+"dns="+B64(wire)+qsuf, nil)
 			req.Header.Set("Accept", "application/dns-message")
 		} else {
 			req, _ = http.NewRequest("POST", u, bytes.NewReader(wire))
